@@ -194,4 +194,19 @@ def run(chk, tier):
                "peer_max_pdu_length: requestor_max_pdu_length", len(no))
     from . import shared
     shared.trim_uid(chk, fx, "uid-trim")
+    # "rejected with the matching reason" is about what goes on the wire: the reject code tables of the PDU writer and reader (C25's
+    # pdu-tables instances for A-ASSOCIATE-RJ) are part of this property too
+    from . import c25, report
+    sub = report.Check("C25", tier)
+    c25.run(sub, tier)
+    chk.rule("reject-codes-on-the-wire", "A-ASSOCIATE-RJ result / source / reason codes written and read equal PS3.8 Table 9-21 (instances of C25 pdu-tables for the reject tables)")
+    n_rj = 0
+    for inst in sub.instances:
+        if inst["rule"] == "pdu-tables" and "rj_" in str(inst["fn"]):
+            n_rj += 1
+            if inst["status"] == "ok":
+                chk.ok("reject-codes-on-the-wire", inst["fn"], inst["instance"], inst.get("detail"))
+            else:
+                chk.bad("reject-codes-on-the-wire", inst["fn"], inst["instance"], inst.get("expected"), inst.get("found"), loc=inst.get("loc"))
+    chk.floor("reject-codes-on-the-wire", "reject table instances", n_rj, 20)
     chk.undecided.append("the value of the decision function over all requests and configurations (needs evaluation); access-control policies supplied by users")
